@@ -253,6 +253,68 @@ func everyPathPasses(fn *ssa.Function, target ssa.Instruction, stop func(ssa.Ins
 	return !walk(fn.Blocks[0])
 }
 
+// viaCalls lifts an instruction predicate over helper calls: an instruction
+// also counts when it is a static call to a module function all of whose
+// returns are reached only through an accepted instruction (so moving the
+// accepted code into a helper that always executes it changes nothing).
+func viaCalls(pred func(ssa.Instruction) bool) func(ssa.Instruction) bool {
+	memo := map[*ssa.Function]int{} // 0 unknown, 1 in progress / no, 2 yes
+	var lifted func(i ssa.Instruction) bool
+	var always func(f *ssa.Function) bool
+	always = func(f *ssa.Function) bool {
+		switch memo[f] {
+		case 1:
+			return false
+		case 2:
+			return true
+		}
+		memo[f] = 1
+		rets := returnsOf(f)
+		if len(rets) == 0 {
+			return false
+		}
+		for _, r := range rets {
+			if !everyPathPasses(f, r, lifted, nil) {
+				return false
+			}
+		}
+		memo[f] = 2
+		return true
+	}
+	lifted = func(i ssa.Instruction) bool {
+		if pred(i) {
+			return true
+		}
+		if ci, ok := i.(ssa.CallInstruction); ok {
+			if _, isGo := i.(*ssa.Go); isGo {
+				return false
+			}
+			if _, isDefer := i.(*ssa.Defer); isDefer {
+				return false
+			}
+			if g := ci.Common().StaticCallee(); g != nil && inModule(g) && g.Blocks != nil {
+				return always(g)
+			}
+		}
+		return false
+	}
+	return lifted
+}
+
+// containsVia: some instruction accepted by pred occurs in f or in a module function it (transitively) calls.
+func containsVia(f *ssa.Function, pred func(ssa.Instruction) bool) bool {
+	for _, g := range pkgReach(f) {
+		for _, b := range g.Blocks {
+			for _, ins := range b.Instrs {
+				if pred(ins) {
+					return true
+				}
+			}
+		}
+	}
+	return false
+}
+
 // mustPassBeforeInstr: every path from the entry to r passes target.
 func mustPassBeforeInstr(fn *ssa.Function, r *ssa.Return, target ssa.Instruction) bool {
 	seen := map[*ssa.BasicBlock]bool{}
@@ -726,7 +788,7 @@ func ruleJoinEarly(c *Ctx, rule string) {
 			}
 			return x == ssa.Value(src)
 		}
-		if !everyPathPasses(fn, r, func(i ssa.Instruction) bool { return i == ssa.Instruction(setSlice) }, srcEmpty) {
+		if !everyPathPasses(fn, r, viaCalls(func(i ssa.Instruction) bool { return i == ssa.Instruction(setSlice) }), srcEmpty) {
 			bad = r
 		}
 	}
@@ -752,36 +814,26 @@ func ruleConformLinear(c *Ctx, rule string) {
 		return ok && n.Obj().Name() == "ConformationSetter"
 	}
 	var bad *ssa.Return
+	lifted := viaCalls(isSet)
 	for _, r := range returnsOf(fn) {
-		if !successReturn(r) {
+		if !maybeSuccess(r) {
 			continue
 		}
-		okPath := false
-		// every path from entry to r passes the assertion to ConformationSetter
-		seen := map[*ssa.BasicBlock]bool{}
-		var walk func(b *ssa.BasicBlock) bool
-		walk = func(b *ssa.BasicBlock) bool {
-			if seen[b] {
-				return false
-			}
-			seen[b] = true
-			for _, ins := range b.Instrs {
-				if isSet(ins) {
-					return false
+		// a return that hands back another module function's result is judged there
+		if call, ok := effectiveResults(r)[len(r.Results)-1].(*ssa.Call); ok {
+			if g := call.Call.StaticCallee(); g != nil && inModule(g) && g.Blocks != nil {
+				okAll := true
+				for _, gr := range returnsOf(g) {
+					if maybeSuccess(gr) && !everyPathPasses(g, gr, lifted, nil) {
+						okAll = false
+					}
 				}
-				if ins == ssa.Instruction(r) {
-					return true
+				if okAll {
+					continue
 				}
 			}
-			for _, s := range b.Succs {
-				if walk(s) {
-					return true
-				}
-			}
-			return false
 		}
-		okPath = !walk(fn.Blocks[0])
-		if !okPath {
+		if !everyPathPasses(fn, r, lifted, nil) {
 			bad = r
 		}
 	}
